@@ -236,6 +236,8 @@ def main():
     except vf.BuildError as ex:
         c.broken.append("correspondence C01: rrt_driver does not build against /repo (RRT internals renamed?): " + str(ex)[-300:]); c.finish()
     import math
+    def edist(a, b):     # RealVectorStateSpace::distance: sqrt of the sum of squared differences, in the library's order of operations
+        dx = a[0] - b[0]; dy = a[1] - b[1]; return math.sqrt(0.0 + dx * dx + dy * dy)
     def coord(grid): return rng.choice([-1.0, -0.5, -0.25, 0.0, 0.25, 0.5, 0.75, 1.0, 1.25]) if grid else round(rng.uniform(-1.5, 1.5), 3)
     rlines = []
     for i in range(400 if quick else 12000):
@@ -285,8 +287,8 @@ def main():
                 edges = set((nodes[p][:2], (x, y)) for (x, y, p) in nodes if p >= 0)
                 if not path or path[0] not in starts: bad = "the reported path does not begin at a start state"
                 elif any((u, v) not in edges for u, v in zip(path, path[1:])): bad = "the reported path contains a motion that is not a tree motion"
-                elif rep[1] == "0" and not (math.dist(path[-1], goal) < thr): bad = "exact solution ends %r from the goal (threshold %r)" % (math.dist(path[-1], goal), thr)
-                elif rep[1] == "1" and abs(fl(rep[2]) - math.dist(path[-1], goal)) > 1e-12: bad = "approximate solution reports difference %r, its last state is %r from the goal" % (fl(rep[2]), math.dist(path[-1], goal))
+                elif rep[1] == "0" and not (edist(path[-1], goal) < thr): bad = "exact solution ends %r from the goal (threshold %r)" % (edist(path[-1], goal), thr)
+                elif rep[1] == "1" and abs(fl(rep[2]) - edist(path[-1], goal)) > 1e-12: bad = "approximate solution reports difference %r, its last state is %r from the goal" % (fl(rep[2]), edist(path[-1], goal))
                 rrt_stats["exact" if rep[1] == "0" else "approximate"] += 1
             else: rrt_stats["none"] += 1
             rrt_stats["nodes"] += len(nodes)
@@ -330,7 +332,7 @@ def main():
                 if not path or path[0] not in starts: bad = "the reported path does not begin at a start state"
                 elif any(touches(kk, u, v) for u, v in zip(path, path[1:]) for kk in walls): bad = "the reported path contains a motion that touches a wall"
                 elif rep[1] == "0" and path[-1] not in goals: bad = "the exact solution does not end at a goal state"
-                elif rep[1] == "1" and abs(fl(rep[2]) - min(math.dist(path[-1], g) for g in goals)) > 1e-12: bad = "approximate solution reports difference %r, its last state is %r from the goal" % (fl(rep[2]), min(math.dist(path[-1], g) for g in goals))
+                elif rep[1] == "1" and abs(fl(rep[2]) - min(edist(path[-1], g) for g in goals)) > 1e-12: bad = "approximate solution reports difference %r, its last state is %r from the goal" % (fl(rep[2]), min(edist(path[-1], g) for g in goals))
                 if bad:
                     npred += 1; failures["rrtconnect-script"] += 1
                     if first_pred is None: first_pred = (cl, "geometric::RRTConnect (scripted): " + bad)
@@ -368,7 +370,7 @@ def main():
                 bad = None
                 if not path or path[0] not in starts: bad = "the reported path does not begin at a start state"
                 elif any(touches(kk, u, v) for u, v in zip(path, path[1:]) for kk in walls): bad = "the reported path contains a motion that touches a wall (lazy validation skipped it)"
-                elif not (math.dist(path[-1], goal) < thr): bad = "the solution ends %r from the goal (threshold %r)" % (math.dist(path[-1], goal), thr)
+                elif not (edist(path[-1], goal) < thr): bad = "the solution ends %r from the goal (threshold %r)" % (edist(path[-1], goal), thr)
                 if bad:
                     npred += 1; failures["lazyrrt-script"] += 1
                     if first_pred is None: first_pred = (ll, "geometric::LazyRRT (scripted): " + bad)
